@@ -16,25 +16,39 @@ from .. import core, build_repo
 ID = "C32"
 LEVEL = "proof"
 RULE = ("cases = (a) argument vectors rendered from structured GCC option lists (joined/separate -I -isystem -D -U, -std=, -f/-m flags, "
-        "other options, -o/-MF/-include operands, input files; absolute paths under roots such as /Users /Downloads /Include), "
-        "(b) the same vectors written as command strings in four quoting styles and split again, (c) hostile vectors/strings over the "
-        "option-prefix and quote alphabets, (d) whole compile_commands.json documents (arguments/command form, repeated files, "
-        "relative/absolute/option-like file names); non-trivial = the vector contains at least one interpreted option or an "
-        "argument that needed quoting / the raw string contains a quote or backslash")
-EXPLANATION = ("Lean theorems (unbounded): splitting a command string quoted in any of four styles returns the arguments (split_quote); "
-               "parseArgs equals the GCC option specification on every vector satisfying the decidable predicate `clean` "
-               "(parseArgs_eq_spec_partial) and differs on the F12 witness (slash_prefix_counterexample); fsSetDefines yields the normal form "
-               "(defines_normal_form). Models are validated against the real functions in-process; Path::simplifyPath, picojson and "
-               "Path::acceptFile are modelled for the import-level tie only as far as stated in docs/C32.md.")
+        "other options, -o/-MF/-include operands, input files; absolute paths under roots such as /Users /Downloads /Include; -D values with "
+        "quotes, blanks, $, `, ;), (b) the same vectors written as command strings - whole-argument and piecewise quoting in five styles "
+        "(bare, double quotes, single quotes, shlex, backslash escapes; CMake-like -DV=\\\"1\\\" and -DMSG=\"a b\") plus the POSIX-only escapes - and "
+        "split again, (c) hostile vectors/strings over the option-prefix and quote alphabets, (d) whole compile_commands.json documents "
+        "(arguments/command form, repeated files, relative/absolute/option-like/rejected/missing file names), (e) oracle runs of /bin/sh and "
+        "gcc -###; non-trivial = the vector contains at least one interpreted option or an argument that needed quoting / the raw string "
+        "contains a quote or backslash")
+EXPLANATION = ("Lean theorems (unbounded): splitting a command string quoted piecewise in any of five styles returns the arguments "
+               "(split_quote_partial; excluded and kept as findings: POSIX escapes of characters other than backslash, quotes and blank); parseArgs "
+               "equals the GCC option specification on every vector satisfying the decidable predicate `clean` (parseArgs_eq_spec_partial; "
+               "excluded: F12 slash-prefixed paths, counterexample proved; ';' inside a -D value, finding); the model of the whole "
+               "importCompileCommands that the driver executes yields per entry exactly the specified settings with -I values de-duplicated and "
+               "resolved against `directory` (import_eq_spec_partial). Models are validated against the real functions in-process and through the "
+               "CLI; the specification is validated against the real gcc driver (gcc -###) and the generator's quoting against /bin/sh. Not "
+               "specified further: simplecpp::simplifyPath (modelled literally, used as the normaliser inside the include-path specification), "
+               "picojson, Path::acceptFile's extension table; -fpic/-fPIC/-fpie/-fPIE/-municode map to the one macro cppcheck documents "
+               "(GCC defines both spellings with value 1 or 2) - the specification follows the code there.")
+ASSUMPTIONS = [
+    "include-path specification Import.incSpec resolves a relative -I value with the model of simplecpp::simplifyPath (validated against the real function, not specified independently)",
+    "Spec.impliedDefine (-fpic -fPIC -fpie -fPIE -municode => one macro =1) follows cppcheck's table, not GCC's values",
+    "Spec.sepOpts lists 38 separate-value options of gcc/clang; for a name missing from the list spec and code both read the value as a free argument (agreement preserved, `clean` clause 4 then does not mention it)",
+    "the `$(VAR)` expansion of fsSetIncludePaths is modelled for unset variables only",
+]
 THEOREMS = [
+    "Cppcheck.Shell.split_quote_partial",
     "Cppcheck.Shell.split_quote",
     "Cppcheck.Shell.empty_arg_dropped",
     "Cppcheck.Shell.dollar_escape_kept",
-    "Cppcheck.GccArgs.defines_normal_form",
+    "Cppcheck.GccArgs.defines_normal_form_partial",
     "Cppcheck.GccArgs.semicolon_define_counterexample",
     "Cppcheck.GccArgs.parseArgs_eq_spec_partial",
     "Cppcheck.GccArgs.spec_of_render",
-    "Cppcheck.GccArgs.parseArgs_render",
+    "Cppcheck.GccArgs.parseArgs_render_partial",
     "Cppcheck.GccArgs.sepOpts_otherOk",
     "Cppcheck.GccArgs.slash_prefix_counterexample",
     "Cppcheck.GccArgs.parseArgs_eq_spec_counterexample",
@@ -42,7 +56,9 @@ THEOREMS = [
     "Cppcheck.GccArgs.trailing_bare_option_ignored",
     "Cppcheck.GccArgs.trailing_bare_option_oob_before_0f74657",
     "Cppcheck.GccArgs.fix_0f74657_conservative",
-    "Cppcheck.import_command_eq_spec",
+    "Cppcheck.GccArgs.entryArgs_command_quote",
+    "Cppcheck.GccArgs.import_eq_spec_partial",
+    "Cppcheck.GccArgs.import_eq_spec_counterexample",
 ]
 MODULES = ["Cppcheck.Props.C32"]
 
@@ -69,7 +85,7 @@ def enc(s, e):
 IDENT0 = "ABCXYZ_abfoo"
 IDENTS = ["A", "B", "NDEBUG", "FOO", "BAR_2", "_x", "HAVE_CONFIG_H", "VERSION", "MSG", "REAL", "f", "Q_T", "WIN", "lower"]
 VALUES = ["1", "0", "42", "", "\"str\"", "\"a b\"", "(1+2)", "a=b", "'c'", "x\\y", "\"q\\\"uote\"", "it's", "-1", "0x10", "long long", "\\", "é",
-          "a\tb", "$HOME", "`x`", "a,b", "<h.h>", "{}", "a#b", "%(X)", "100%"]
+          "a\tb", "$HOME", "`x`", "a,b", "<h.h>", "{}", "a#b", "%(X)", "100%", "a;b", "\"x; y\""]
 DIRS_REL = ["inc", "include", "src/inc", "../inc", "./gen", "a b/inc", "third party/x", "inc/", "x/../y", "é/inc", "-weird", "I", "D=1"]
 OTHER = ["-c", "-O2", "-g", "-Wall", "-Wextra", "-fno-rtti", "-fvisibility=hidden", "-m64", "-march=native", "-pthread", "-MD", "-pipe", "-W",
          "-fPIC2", "-funroll-loops", "-mfpu=neon", "-stdlib=libc++", "-ansi", "-isysrootX", "-i", "-s", "-", "--", "-w"]
@@ -190,13 +206,24 @@ def fs_line(d):
 
 
 def def_ok(d):
+    """the Lean predicate defOk"""
     return bool(d) and ";" not in d and d[0] not in "=(" and not d.startswith("%(")
+
+
+def def_valid(d):
+    """a -D value GCC accepts: starts like an identifier (a ';' in the value is fine for GCC)"""
+    return bool(d) and (d[0].isalpha() or d[0] == "_")
+
+
+def desemi(opts):
+    """the same command line with every ';' of a -D value replaced (classification of define-semicolon-split)"""
+    return [((o[0], o[1].replace(";", ","), o[2]) if o[0] == "D" else o) for o in opts]
 
 
 def opts_in_premise(opts):
     """the generator stays inside what the property quantifies over: values non-empty, definitions representable"""
     for o in opts:
-        if o[0] == "D" and not def_ok(o[1]):
+        if o[0] == "D" and not def_valid(o[1]):
             return False
         if o[0] in ("I", "isystem", "U") and not o[1]:
             return False
@@ -205,44 +232,122 @@ def opts_in_premise(opts):
 
 # ---- quoting --------------------------------------------------------------------------------------
 
+ESCAPABLE = "\\\"' "
+SHELL_SAFE = set("abcdefghijklmnopqrstuvwxyzABCDEFGHIJKLMNOPQRSTUVWXYZ0123456789_@%+=:,./-")
+MODEL_STYLES = "bdsxe"
+
+
 def bare_ok(a):
     return not any(c in a for c in " \"'\\")
 
 
 def quote_arg(sty, a):
+    """one piece in one style.  b d s x e are the styles of Shell.quoteArg; pd / pb are what a POSIX quoter writes (double
+    quotes in which backslash, double quote, dollar and back quote are escaped; a backslash in front of every character that
+    is special to sh) - outside the theorem: cppcheck keeps the backslash in front of characters other than backslash, the
+    two quote characters and blank (finding posix-backslash-escape-kept)"""
     if sty == "b":
         return a
     if sty == "d":
         return '"' + a.replace("\\", "\\\\").replace('"', '\\"') + '"'
     if sty == "s":
         return "'" + a.replace("'", "'\\''") + "'"
-    return "'" + a.replace("'", "'\"'\"'") + "'"
+    if sty == "x":
+        return "'" + a.replace("'", "'\"'\"'") + "'"
+    if sty == "e":
+        return "".join("\\" + c for c in a)
+    if sty == "pd":
+        return '"' + "".join(("\\" + c) if c in "\\\"$`" else c for c in a) + '"'
+    if sty == "pb":
+        return "".join(c if (c in SHELL_SAFE or ord(c) > 127) else "\\" + c for c in a)
+    raise ValueError(sty)
 
 
-def gen_styles(rng, args, mode=None):
+def piece_ok(sty, a):
+    return (sty != "b" or bare_ok(a)) and (sty != "e" or all(c in ESCAPABLE for c in a))
+
+
+def gen_segs(rng, a, mode):
+    """pieces of one argument: list of (style, text)"""
+    if not a:
+        return [(rng.choice("dsx"), a)]
+    if mode == "cmake":           # CMake's Unix style: escapable characters get a backslash, the rest is written as is
+        segs, cur, cur_e = [], "", None
+        for c in a:
+            e = c in ESCAPABLE
+            if cur and e != cur_e:
+                segs.append(("e" if cur_e else "b", cur)); cur = ""
+            cur += c; cur_e = e
+        segs.append(("e" if cur_e else "b", cur))
+        return segs
+    if mode == "mid" and "=" in a[:-1]:      # -DMSG="a b": the quote opens in the middle of the argument
+        k = a.index("=") + 1
+        if bare_ok(a[:k]):
+            return [("b", a[:k]), (rng.choice("dsx"), a[k:])]
+    if mode == "random":
+        cuts = sorted(set(rng.randrange(1, len(a) + 1) for _ in range(rng.choice([1, 2, 3])))) if len(a) > 1 else []
+        segs, prev = [], 0
+        for c in cuts + [len(a)]:
+            if c > prev:
+                piece = a[prev:c]
+                cand = [x for x in MODEL_STYLES if piece_ok(x, piece)]
+                segs.append((rng.choice(cand), piece)); prev = c
+        if rng.random() < 0.1:
+            segs.insert(rng.randrange(len(segs) + 1), (rng.choice("dsx"), ""))    # an empty quoted piece adds nothing
+        return segs
+    sty = "b" if (bare_ok(a) and rng.random() < 0.9) else rng.choice("dsx")
+    return [(sty, a)]
+
+
+def gen_styles(rng, args, mode=None, posix=False):
+    """the command string of a vector: list of (pad, pieces)"""
     out = []
-    mode = mode or rng.choice(["min-d", "min-s", "min-x", "mixed", "all-d"])
+    mode = mode or rng.choice(["whole", "whole", "cmake", "mid", "random"])
     for a in args:
-        if mode == "mixed":
-            sty = rng.choice("bdsx")
-        elif mode == "all-d":
-            sty = "d"
-        else:
-            sty = "b" if rng.random() < 0.95 else mode[-1]
-        if sty == "b" and (not bare_ok(a) or not a):
-            sty = mode[-1] if mode.startswith("min") else rng.choice("dsx")
         pad = 0 if rng.random() < 0.85 else rng.choice([1, 2, 5])
-        out.append((sty, pad, a))
+        if posix and a and rng.random() < 0.5 and "\n" not in a:
+            out.append((pad, [(rng.choice(["pd", "pb"]), a)]))
+        else:
+            out.append((pad, gen_segs(rng, a, mode)))
     return out
+
+
+def item_text(segs):
+    return "".join(t for _, t in segs)
 
 
 def quote_cmd(items):
     s = ""
-    for k, (sty, pad, a) in enumerate(items):
+    for k, (pad, segs) in enumerate(items):
         if k:
             s += " " + " " * pad
-        s += quote_arg(sty, a)
+        s += "".join(quote_arg(sty, t) for sty, t in segs)
     return s
+
+
+def shell_valid(items):
+    """the command string is correct input for a POSIX shell (what the build executes): bare pieces hold no shell-special
+    character, our plain double-quote style holds no $ or back quote"""
+    for _, segs in items:
+        for sty, t in segs:
+            if sty == "b" and not all((c in SHELL_SAFE or ord(c) > 127) for c in t):
+                return False
+            if sty == "d" and any(c in "$`" for c in t):
+                return False
+            if "\n" in t or "\x00" in t:
+                return False
+    return True
+
+
+def sh_split(cmd):
+    """independent oracle for "shell-quoted": /bin/sh splits the command string"""
+    import subprocess
+    r = subprocess.run(["/bin/sh", "-c", b"printf '%s\\0' " + cmd.encode("latin-1")], stdout=subprocess.PIPE, stderr=subprocess.PIPE,
+                       env={"PATH": "/usr/bin:/bin"}, timeout=20)
+    if r.returncode != 0:
+        return None
+    parts = r.stdout.split(b"\0")
+    return [x.decode("latin-1") for x in parts[:-1]]
 
 
 # ---- hostile inputs -------------------------------------------------------------------------------
@@ -291,20 +396,38 @@ def neutralise(args):
 
 
 def classify_parse_batch(R, fails, e="latin-1"):
-    """fails: list of (args, want_line).  Returns the key of the known class each failing vector belongs to, or None:
-    `slash-prefixed-path-arg` iff some argument starts with /I /D /U /std: AND the real code recovers exactly the
-    specified options once those arguments are rewritten to start with "/_"."""
-    cand = [i for i, (args, _) in enumerate(fails) if neutralise(args) != args]
-    got = R.impl([parse_op(neutralise(fails[i][0]), e) for i in cand]) if cand else []
-    keys = [None] * len(fails)
-    for i, g in zip(cand, got):
-        if g == fails[i][1]:
-            keys[i] = "slash-prefixed-path-arg"
-    return keys
+    """fails: list of (args, want_line, opts|None).  Returns for each failing vector the list of known classes that
+    together explain it, or [] (= unclassified):
+      slash-prefixed-path-arg   some argument (not the value of a separate -I/-isystem/-D/-U) starts with /I /D /U /std:
+      define-semicolon-split    some -D value contains ';'
+    A class is accepted only if the real code recovers exactly the specified options once the offending arguments are
+    neutralised (slash arguments rewritten to "/_…", ';' in -D values rewritten to ','); a vector that needs both
+    neutralisations belongs to both classes."""
+    ops, plan = [], []
+    for i, (args, want, opts) in enumerate(fails):
+        variants = []
+        n1 = neutralise(args)
+        if n1 != args:
+            variants.append((["slash-prefixed-path-arg"], n1, want))
+        if opts is not None and any(o[0] == "D" and ";" in o[1] for o in opts):
+            o2 = desemi(opts)
+            a2, w2 = render(o2), fs_line(intended(o2, e))
+            variants.append((["define-semicolon-split"], a2, w2))
+            if neutralise(a2) != a2:
+                variants.append((["slash-prefixed-path-arg", "define-semicolon-split"], neutralise(a2), w2))
+        for keys, a, w in variants:
+            plan.append((i, keys, w))
+            ops.append(parse_op(a, e))
+    got = R.impl(ops) if ops else []
+    out = [[] for _ in fails]
+    for (i, keys, w), g in zip(plan, got):
+        if g == w and not out[i]:
+            out[i] = keys
+    return out
 
 
-def classify_parse(R, args, want_line, e="latin-1"):
-    return classify_parse_batch(R, [(args, want_line)], e)[0]
+def classify_parse(R, args, want_line, opts=None, e="latin-1"):
+    return classify_parse_batch(R, [(args, want_line, opts)], e)[0]
 
 
 # ---- running --------------------------------------------------------------------------------------------
@@ -413,51 +536,90 @@ def tie_parse(ctx, res, R, vectors, name):
                 res.oblig("G-spec:generator-options-equal-Spec.gcc", False, "translation",
                           "Spec.gcc disagrees with the options the generator rendered: %s spec=%s generator=%s" % (show(args), sline, want))
             if inprem and il != want:
-                fails.append((args, want, il))
-    keys = classify_parse_batch(R, [(a, w) for a, w, _ in fails])
-    for (args, want, il), key in zip(fails, keys):
-        res.count("P_impl-fail:" + str(key))
-        res.violation("parseArgs recovers other options than the command line specifies: %s got=[%s] specified=[%s]" % (show(args), il, want),
-                      dict(kind="args", args=args, got=il, specified=want, replay_cmd="./check.py C32 --replay <this file>"),
-                      concrete=True, key=key)
+                fails.append((args, want, il, opts))
+    for (args, want, il, opts), keys in zip(fails, classify_parse_batch(R, [(a, w, o) for a, w, _, o in fails])):
+        res.count("P_impl-fail:" + "+".join(keys or ["None"]))
+        for key in (keys or [None]):
+            res.violation("parseArgs recovers other options than the command line specifies: %s got=[%s] specified=[%s]" % (show(args), il, want),
+                          dict(kind="args", args=args, got=il, specified=want, replay_cmd="./check.py C32 --replay <this file>"),
+                          concrete=True, key=key)
     res.traces_validated += len(safe) - len(mism)
     res.oblig("correspondence:" + name, not mism, "correspondence",
               "" if not mism else "%d of %d ops differ; first: %s impl=[%s] model=[%s]" % (len(mism), len(safe), show(safe[mism[0]][0]), impl[mism[0]], model[mism[0]]))
     return mism
 
 
-def tie_split(ctx, res, R, items_list, raws, name):
-    """items_list: list of [(style, pad, arg)] ; raws: list of raw command strings"""
-    qops = ["quote " + " ".join("%s:%d:%s" % (s, p, hx(enc(a, "latin-1"))) for s, p, a in items) for items in items_list]
+def tie_split(ctx, res, R, items_list, raws, name, posix_list=(), n_sh=0):
+    """items_list: commands in the model's styles [(pad, pieces)]; posix_list: commands that also use the POSIX-only
+    styles; raws: raw command strings"""
+    rng = ctx.rng
+    qops = ["qcmd " + " ".join("%d/%s" % (p, "+".join("%s:%s" % (st, hx(enc(t, "latin-1"))) for st, t in segs)) for p, segs in items) for items in items_list]
     qout = R.model(qops)
     cmds, bad_q = [], []
     for items, o in zip(items_list, qout):
         cmd = quote_cmd(items)
-        h, ok = o.split(" ")
-        if h != hx(enc(cmd, "latin-1")) or ok != "1":
+        f = o.split(" ")
+        want_args = [hx(enc(item_text(segs), "latin-1")) for _, segs in items]
+        if f[0] != hx(enc(cmd, "latin-1")) or f[1] != "1" or f[2:] != want_args:
             bad_q.append((items, o))
         cmds.append(cmd)
-    res.oblig("G-quote:generator-quoting-equals-Shell.quote", not bad_q, "translation",
-              "" if not bad_q else "python quoting and the model's quote differ (or argOk false): %s -> %s" % (bad_q[0][0], bad_q[0][1]))
-    allc = cmds + raws
+    res.oblig("G-quote:generator-quoting-equals-Shell.quoteCmd", not bad_q, "translation",
+              "" if not bad_q else "python quoting and the model's quoteCmd differ (or segsOk false): %s -> %s" % (bad_q[0][0], bad_q[0][1]))
+    pcmds = [quote_cmd(items) for items in posix_list]
+    all_items = list(items_list) + list(posix_list)
+    allc = cmds + pcmds + raws
     ops = [("split " + hx(enc(c, "latin-1"))) for c in allc]
     impl, model = R.both(ops)
-    mism = []
+    mism, fails = [], []
     for i, (c, il, ml) in enumerate(zip(allc, impl, model)):
         nt = any(ch in c for ch in "\"'\\")
         samp = dict(tie=name, op=json.dumps(c), impl=il, model=ml) if i % max(1, len(allc) // 3) == 0 else None
         res.case(name + "|" + ops[i], nt, samp)
         if il != ml:
             mism.append(i)
-        if i < len(cmds):
-            want = " ".join(["ok"] + [hx(enc(a, "latin-1")) for _, _, a in items_list[i]])
-            for s, _, _ in items_list[i]:
-                res.count("style:" + s)
+        if i < len(all_items):
+            want = " ".join(["ok"] + [hx(enc(item_text(segs), "latin-1")) for _, segs in all_items[i]])
+            for _, segs in all_items[i]:
+                for st, _ in segs:
+                    res.count("style:" + st)
+                if len(segs) > 1:
+                    res.count("piecewise-argument")
             if il != want:
-                res.violation("collectArgs does not return the arguments the command string was quoted from: cmd=%s got=[%s] want=[%s]" % (json.dumps(c), il, want),
-                              dict(kind="cmd", cmd=c, items=[list(x) for x in items_list[i]], got=il, want=want), concrete=True, key=None)
+                fails.append((i, c, il, want))
         else:
             res.count("raw:" + il.split(" ")[0])
+    # classification: the only known class is a POSIX-only escape (pd / pb piece holding a character whose backslash cppcheck
+    # keeps); it is confirmed by re-quoting exactly those pieces in single quotes and seeing the real code return the vector
+    cand, cops = [], []
+    for k, (i, c, il, want) in enumerate(fails):
+        items = all_items[i]
+        if any(st in ("pd", "pb") for _, segs in items for st, _ in segs):
+            alt = [(p, [(("s" if st in ("pd", "pb") else st), t) for st, t in segs]) for p, segs in items]
+            cand.append(k)
+            cops.append("split " + hx(enc(quote_cmd(alt), "latin-1")))
+    cout = R.impl(cops) if cops else []
+    keys = [None] * len(fails)
+    for k, o in zip(cand, cout):
+        if o == fails[k][3]:
+            keys[k] = "posix-backslash-escape-kept"
+    for (i, c, il, want), key in zip(fails, keys):
+        res.count("P_impl-split-fail:" + str(key))
+        res.violation("collectArgs does not return the arguments the command string was quoted from: cmd=%s got=[%s] want=[%s]" % (json.dumps(c), il, want),
+                      dict(kind="cmd", cmd=c, items=[[p, [list(x) for x in segs]] for p, segs in all_items[i]], got=il, want=want), concrete=True, key=key)
+    # independent oracle: /bin/sh splits the generated command strings into the vector (so "quoted by the generator" means
+    # "shell-quoted")
+    if n_sh:
+        idx = [i for i in range(len(all_items)) if shell_valid(all_items[i])]
+        rng.shuffle(idx)
+        bad_sh, ran = [], 0
+        for i in idx[:n_sh]:
+            got = sh_split(allc[i])
+            ran += 1
+            if got != [item_text(segs) for _, segs in all_items[i]]:
+                bad_sh.append((allc[i], got))
+        res.extra["sh_oracle_runs"] = res.extra.get("sh_oracle_runs", 0) + ran
+        res.oblig("O-sh:generated-command-strings-are-shell-quoting", not bad_sh and ran > 0, "translation",
+                  "" if not bad_sh else "/bin/sh splits a generated command differently from the vector it was written from: %s -> %s" % (json.dumps(bad_sh[0][0]), bad_sh[0][1]))
     res.traces_validated += len(allc) - len(mism)
     res.oblig("correspondence:" + name, not mism, "correspondence",
               "" if not mism else "%d of %d ops differ; first: %s impl=[%s] model=[%s]" % (len(mism), len(allc), json.dumps(allc[mism[0]]), impl[mism[0]], model[mism[0]]))
@@ -480,6 +642,93 @@ def tie_defs(ctx, res, R, strings, deflists, name):
     res.oblig("correspondence:" + name, not mism, "correspondence",
               "" if not mism else "%d of %d ops differ; first: %s impl=[%s] model=[%s]" % (len(mism), len(ops), ops[mism[0]], impl[mism[0]], model[mism[0]]))
 
+
+
+
+# ---- independent oracle for the specification: the GCC driver itself -----------------------------------------
+
+GCC_STD_ALIAS = {"c89": "c90", "gnu89": "gnu90", "c9x": "c99", "c1x": "c11", "c++0x": "c++11", "c++1y": "c++14", "c++1z": "c++17",
+                 "c++2a": "c++20", "gnu++2a": "gnu++20"}
+
+
+def gcc_reading(args):
+    """what the installed gcc driver makes of the vector: `gcc -###` prints COLLECT_GCC_OPTIONS, its own parsed option list
+    (joined/separate forms normalised, values of -o -MF -include … consumed, input files removed).  None if gcc rejects it."""
+    import subprocess, shlex
+    try:
+        r = subprocess.run([b"gcc", b"-###"] + [enc(a, "latin-1") for a in args[1:]], stdout=subprocess.PIPE, stderr=subprocess.PIPE,
+                           timeout=20, env={"PATH": "/usr/bin:/bin", "LC_ALL": "C"})
+    except (ValueError, OSError):
+        return None
+    if r.returncode != 0:
+        return None
+    line = None
+    for l in r.stderr.split(b"\n"):
+        if l.startswith(b"COLLECT_GCC_OPTIONS="):
+            line = l[len(b"COLLECT_GCC_OPTIONS="):].decode("latin-1")
+            break
+    if line is None:
+        return None
+    toks = shlex.split(line)
+    inc, sysinc, defs, undefs, std = [], [], [], set(), ""
+    k = 0
+    while k < len(toks):
+        t = toks[k]
+        if t in ("-I", "-isystem", "-D", "-U") and k + 1 < len(toks):
+            v = toks[k + 1]
+            k += 2
+            if t == "-I":
+                if v not in inc:
+                    inc.append(v)
+            elif t == "-isystem":
+                sysinc.append(v)
+            elif t == "-D":
+                defs.append(v)
+            else:
+                undefs.add(enc(v, "latin-1"))
+            continue
+        if t.startswith("-std="):
+            std = t[5:]
+        k += 1
+    return dict(I=[enc(x, "latin-1") for x in inc], S=[enc(x, "latin-1") for x in sysinc],
+                D=enc(";".join(norm_def(d) for d in defs), "latin-1"), U=sorted(undefs), T=enc(std, "latin-1"))
+
+
+def tie_gcc_oracle(ctx, res, R, vectors, nmax, name="O-gcc:Spec.gcc-equals-the-gcc-driver-reading"):
+    """Spec.gcc is hand-written; here the real GCC driver reads the same vectors.  Only vectors gcc accepts count."""
+    import shutil
+    if not shutil.which("gcc"):
+        res.notes.append("gcc not installed: oracle skipped")
+        return
+    # the driver prunes repeated -f switches and prints -std aliases canonically: vectors with -fpic… are left to the other
+    # ties (their macro is cppcheck's own approximation), aliases are mapped on the spec side
+    cand = [a for a, o in vectors if a and not any("\x00" in x or "\n" in x for x in a) and not any(x in IMPLIED for x in a)]
+    ctx.rng.shuffle(cand)
+    used, ops, readings = 0, [], []
+    for args in cand:
+        if used >= nmax:
+            break
+        g = gcc_reading(args)
+        if g is None:
+            res.count("gcc-oracle-rejected")
+            continue
+        used += 1
+        ops.append(parse_op(args, op="spec"))
+        readings.append((args, fs_line(g)))
+    out = R.model(ops) if ops else []
+    bad = []
+    for (args, gl), sl in zip(readings, out):
+        m = re.match(r"^(.*) \| clean ([01]) defok ([01])$", sl)
+        spec_line = m.group(1) if m else ""
+        for alias, canon in GCC_STD_ALIAS.items():
+            if spec_line.endswith(" | T " + hx(alias)):
+                spec_line = spec_line[: -len(hx(alias))] + hx(canon)
+        if spec_line != gl:
+            bad.append((args, gl, sl))
+    res.extra["gcc_oracle_vectors"] = res.extra.get("gcc_oracle_vectors", 0) + used
+    res.oblig(name, not bad and used >= min(nmax, 20), "translation",
+              ("only %d vectors accepted by gcc" % used) if not bad else
+              "%d of %d vectors: the gcc driver reads other options than Spec.gcc; first: %s gcc=[%s] spec=[%s]" % (len(bad), used, show(bad[0][0]), bad[0][1], bad[0][2]))
 
 
 # ---- import level: whole compile_commands.json documents ---------------------------------------------------
@@ -541,7 +790,7 @@ def gen_doc(rng):
         if f is not None:
             pool.append(f)
         opts = gen_opts(rng, n=rng.choice([1, 2, 3, 5, 8]))
-        opts = [o for o in opts if not (o[0] == "pos" and o[1].endswith(tuple(EXTS)))]
+        opts = [o for o in opts if not (o[0] == "pos" and o[1].endswith(tuple(EXTS))) and not (o[0] == "D" and ";" in o[1])]
         if f is not None:
             opts.append(("pos", ("./" + f) if f.startswith("-") else f))
         form = rng.choice(["A", "A", "C", "C", "C"])
@@ -574,8 +823,27 @@ def doc_to_json_and_model(rng, entries):
     return text, "import " + " ".join(toks)
 
 
+def expected_sysincs(directory, dirs):
+    """the directories the -isystem values denote for a compiler running in `directory`"""
+    d0 = directory if directory.endswith("/") else directory + "/"
+    return [x if x.startswith("/") else posixpath.normpath(d0 + x) for x in dirs]
+
+
+def entry_line(directory, f, opts, k):
+    """the file setting line an entry specifies (include and system include directories resolved against `directory`)"""
+    it = intended(opts, "utf-8")
+    it["I"] = [enc(x, "utf-8") for x in expected_incs(directory, [o[1] for o in opts if o[0] == "I"])]
+    it["S"] = [enc(x, "utf-8") for x in expected_sysincs(directory, [o[1] for o in opts if o[0] == "isystem"])]
+    return "P %s id %d | %s" % (hx(enc(expected_path(directory, f), "utf-8")), k, fs_line(it))
+
+
+def absolutise_isystem(directory, opts):
+    d0 = directory if directory.endswith("/") else directory + "/"
+    return [((o[0], posixpath.normpath(d0 + o[1]), o[2]) if (o[0] == "isystem" and not o[1].startswith("/")) else o) for o in opts]
+
+
 def intended_entry_lines(entries):
-    """(line, in_premise) per accepted entry, in order"""
+    """(line, in_premise, entry) per accepted entry, in order"""
     out, ids = [], {}
     for e in entries:
         f = e["file"]
@@ -584,11 +852,8 @@ def intended_entry_lines(entries):
         path = expected_path(e["directory"], f)
         k = ids.get(path, 0)
         ids[path] = k + 1
-        it = intended(e["opts"], "utf-8")
-        incs = [o[1] for o in e["opts"] if o[0] == "I"]
         ok = opts_in_premise(e["opts"]) and plain_for_intended(e["directory"], e["opts"])
-        it["I"] = [enc(x, "utf-8") for x in expected_incs(e["directory"], incs)] if ok else []
-        out.append(("P %s id %d | %s" % (hx(enc(path, "utf-8")), k, fs_line(it)), ok, e))
+        out.append((entry_line(e["directory"], f, e["opts"], k) if ok else "", ok, e))
     return out
 
 
@@ -632,27 +897,37 @@ def tie_import(ctx, res, R, docs, name):
         for got, (w, ok, e) in zip(parts[1:], want):
             if ok and got != w:
                 fails.append((e, got, w, text))
-    # classify entry-level failures through the argument vector of the entry (paths of -I are rewritten by the import, so
-    # the class test compares only the non-include part when neutralising)
-    cand, cops = [], []
+    # classify entry-level failures: each known class is confirmed by neutralising exactly its input on the real code
+    #   slash-prefixed-path-arg        arguments starting with /I /D /U /std: rewritten to "/_…"
+    #   isystem-relative-not-resolved  relative -isystem values rewritten to the absolute directory they denote
+    plan, cops = [], []
     for j, (e, got, w, text) in enumerate(fails):
-        nargs = neutralise(e["args"])
-        if nargs != e["args"]:
-            obj = {"directory": e["directory"], "file": e["file"], "arguments": nargs}
-            cand.append(j)
+        variants = []
+        n1 = neutralise(e["args"])
+        if n1 != e["args"]:
+            variants.append((["slash-prefixed-path-arg"], n1, entry_line(e["directory"], e["file"], e["opts"], 0)))
+        o2 = absolutise_isystem(e["directory"], e["opts"])
+        if o2 != e["opts"]:
+            a2, w2 = render(o2), entry_line(e["directory"], e["file"], o2, 0)
+            variants.append((["isystem-relative-not-resolved"], a2, w2))
+            if neutralise(a2) != a2:
+                variants.append((["slash-prefixed-path-arg", "isystem-relative-not-resolved"], neutralise(a2), w2))
+        for keys, a, w0 in variants:
+            obj = {"directory": e["directory"], "file": e["file"], "arguments": a}
+            plan.append((j, keys, w0))
             cops.append("json " + hx(json.dumps([obj]).encode("utf-8")))
     cout = R.impl(cops) if cops else []
-    keys = [None] * len(fails)
-    for j, o in zip(cand, cout):
+    keysof = [[] for _ in fails]
+    for (j, keys, w0), o in zip(plan, cout):
         g2 = o.split(" || ")
-        w0 = re.sub(r" id \d+ ", " id 0 ", fails[j][2])
-        if len(g2) == 2 and g2[1] == w0:
-            keys[j] = "slash-prefixed-path-arg"
-    for (e, got, w, text), key in zip(fails, keys):
-        res.count("P_impl-import-fail:" + str(key))
-        res.violation("import recovers other options than the entry specifies: entry=%s got=[%s] specified=[%s]" %
-                      (json.dumps(dict(directory=e["directory"], file=e["file"], arguments=e["args"])), got, w),
-                      dict(kind="json", json=text, got=got, specified=w), concrete=True, key=key)
+        if len(g2) == 2 and g2[1] == w0 and not keysof[j]:
+            keysof[j] = keys
+    for (e, got, w, text), keys in zip(fails, keysof):
+        res.count("P_impl-import-fail:" + "+".join(keys or ["None"]))
+        for key in (keys or [None]):
+            res.violation("import recovers other options than the entry specifies: entry=%s got=[%s] specified=[%s]" %
+                          (json.dumps(dict(directory=e["directory"], file=e["file"], arguments=e["args"])), got, w),
+                          dict(kind="json", json=text, got=got, specified=w), concrete=True, key=key)
     res.traces_validated += len(keep) - len(mism)
     res.oblig("correspondence:" + name, not mism, "correspondence",
               "" if not mism else "%d of %d documents differ; first: %s impl=[%s] model=[%s]" % (len(mism), len(keep), keep[mism[0]][1][:400], impl[mism[0]][:400], model[mism[0]][:400]))
@@ -706,7 +981,7 @@ def tie_cli(ctx, res, R, ndocs, name):
             os.makedirs(os.path.dirname(absf), exist_ok=True)
             open(absf, "w").write("int x%d;\n" % j)
             opts = gen_opts(rng, n=rng.choice([2, 4, 6]))
-            opts = [o for o in opts if not (o[0] == "pos" and o[1].endswith(tuple(EXTS)))]
+            opts = [o for o in opts if not (o[0] == "pos" and o[1].endswith(tuple(EXTS))) and not (o[0] == "D" and ";" in o[1])]
             opts.append(("pos", ("./" + f) if f.startswith("-") else f))
             entries.append(dict(directory=bdir + rng.choice(["", "/"]), file=f, opts=opts, form=rng.choice(["A", "C"])))
         text, _ = doc_to_json_and_model(rng, entries)
@@ -732,6 +1007,8 @@ def tie_cli(ctx, res, R, ndocs, name):
         want = intended_entry_lines(entries)
         if len(want) == len(cli):
             for (w, ok, e), c in zip(want, cli):
+                if not ok:
+                    continue
                 m = re.match(r"^P (\S+) id (\d+) \| I (\S+) \| S (\S+) \| D (\S+) \| U (\S+) \| T (\S+)$", w)
                 unl = lambda x: [] if x == "." else [core.unhx(y) for y in x.split(",")]
                 wl = (b"Defines:" + core.unhx(m.group(5)), b"Undefines:" + b";".join(b" " + u for u in unl(m.group(6))),
@@ -770,21 +1047,43 @@ def replay_corpus(ctx, res, R):
         if c["kind"] == "args":
             got = R.impl_parse(c["args"])
             if got != c["specified"]:
-                key = classify_parse(R, c["args"], c["specified"])
-                res.violation("corpus witness still reproduces: %s got=[%s] specified=[%s]" % (show(c["args"]), got, c["specified"]),
-                              dict(kind="args", args=c["args"], got=got, specified=c["specified"]), concrete=True, key=key)
+                opts = [tuple(o) for o in c["opts"]] if "opts" in c else None
+                keys = classify_parse(R, c["args"], c["specified"], opts)
+                for key in (keys or [None]):
+                    res.violation("corpus witness still reproduces: %s got=[%s] specified=[%s]" % (show(c["args"]), got, c["specified"]),
+                                  dict(kind="args", args=c["args"], got=got, specified=c["specified"]), concrete=True, key=key)
+                res.count("corpus-reproduced")
+            else:
+                res.count("corpus-no-longer-reproduces")
+        elif c["kind"] == "entry":
+            opts = [tuple(o) for o in c["opts"]]
+            one = lambda o: R.impl(["json " + hx(json.dumps([{"directory": c["directory"], "file": c["file"], "arguments": render(o)}]).encode("utf-8"))])[0].split(" || ")
+            got, want = one(opts), entry_line(c["directory"], c["file"], opts, 0)
+            if got[1:] != [want]:
+                o2 = absolutise_isystem(c["directory"], opts)
+                key = "isystem-relative-not-resolved" if (o2 != opts and one(o2)[1:] == [entry_line(c["directory"], c["file"], o2, 0)]) else None
+                res.violation("corpus witness still reproduces: entry %s got=%s specified=[%s]" % (json.dumps(c), got[1:], want),
+                              dict(kind="json", json=json.dumps([{"directory": c["directory"], "file": c["file"], "arguments": render(opts)}]), specified=want),
+                              concrete=True, key=key)
                 res.count("corpus-reproduced")
             else:
                 res.count("corpus-no-longer-reproduces")
         elif c["kind"] == "cmd":
             got = R.impl(["split " + hx(enc(c["cmd"], "latin-1"))])[0]
             if got != c["want"]:
+                key = None
+                if "alt" in c and R.impl(["split " + hx(enc(c["alt"], "latin-1"))])[0] == c["want"]:
+                    key = "posix-backslash-escape-kept"     # the same vector written without the POSIX-only escape is split correctly
                 res.violation("corpus witness still reproduces: cmd=%s got=[%s] want=[%s]" % (json.dumps(c["cmd"]), got, c["want"]),
-                              dict(kind="cmd", cmd=c["cmd"], got=got, want=c["want"]), concrete=True, key=c.get("key"))
+                              dict(kind="cmd", cmd=c["cmd"], got=got, want=c["want"]), concrete=True, key=key)
+                res.count("corpus-reproduced")
+            else:
+                res.count("corpus-no-longer-reproduces")
 
 
 def run(ctx, res):
     import time
+    res.assumptions.extend(ASSUMPTIONS)
     rng = ctx.rng
     thorough = ctx.tier == "thorough"
     tm = {}
@@ -813,13 +1112,18 @@ def run(ctx, res):
     tie_parse(ctx, res, R, structured, "parseArgs-structured")
     tie_parse(ctx, res, R, hostile, "parseArgs-hostile")
     lap("parse")
+    oracle_vs = [(render(o), o) for o in (gen_opts(rng, hostile_paths=True) for _ in range(6 * (400 if thorough else 60)))]
+    oracle_vs = [(a, [x for x in o]) for a, o in oracle_vs]
+    tie_gcc_oracle(ctx, res, R, oracle_vs + structured, 400 if thorough else 60)
+    lap("gcc-oracle")
 
     items_list = []
     for args, opts in structured[: n // 2]:
         args = [a for a in args if a]
         items_list.append(gen_styles(rng, args))
+    posix_list = [gen_styles(rng, [a for a in args if a], posix=True) for args, _ in structured[n // 2: n // 2 + n // 4]]
     raws = [gen_raw_cmd(rng) for _ in range(n)]
-    tie_split(ctx, res, R, items_list, raws, "collectArgs")
+    tie_split(ctx, res, R, items_list, raws, "collectArgs", posix_list=posix_list, n_sh=(600 if thorough else 80))
     lap("split")
 
     strings = [gen_defs_string(rng) for _ in range(n)]
